@@ -296,4 +296,52 @@ example : multiOk exJ exMs
 example : mgrObsTrace exP [.ev .left l0, .ev .other r0, .wm .other 100, .ev .right r0] =
     [[], [], [], [(0, 0)]] := by decide
 
+/-! ### joins unregistered and registered again on a live manager (round 3)
+
+`multiTraceC` / `multiOkC` extend the manager model and the specification with `unregister_join` and
+`register_join(same id, fresh node)`. The extension is conservative: on histories without control
+calls it is the loop `multi_manager_meets_spec` speaks about. -/
+
+/-- the extended loop is the proven one when no join is ever unregistered -/
+theorem multiTraceC_no_ctl (xs : List (Nat × JoinDef × St)) (ms : List JOp) :
+    multiTraceC (xs.map (fun x => (x.1, x.2.1, some x.2.2))) (ms.map COp.op) =
+      multiTrace (xs.map (fun x => (x.2.1, x.2.2))) ms := by
+  induction ms generalizing xs with
+  | nil => rfl
+  | cons m ms ih =>
+    have := ih (xs.map (fun x => (x.1, x.2.1, (stepJ x.2.1 x.2.2 m).1)))
+    simp only [List.map_map] at this
+    simp only [List.map_cons, multiTraceC, multiTrace, List.map_map]
+    congr 1
+
+theorem idxFrom_map_snd {α : Type} (n : Nat) (xs : List α) : (idxFrom n xs).map (·.2) = xs := by
+  induction xs generalizing n with
+  | nil => rfl
+  | cons x xs ih => simp [idxFrom, ih]
+
+theorem multiObsTraceC_no_ctl (js : List JoinDef) (ms : List JOp) :
+    multiObsTraceC js (ms.map COp.op) = multiObsTrace js ms := by
+  unfold multiObsTraceC multiObsTrace
+  have := multiTraceC_no_ctl ((idxFrom 0 js).map (fun x => (x.1, x.2, init))) ms
+  simp only [List.map_map] at this
+  have h2 : (idxFrom 0 js).map ((fun x : Nat × JoinDef × St => (x.2.1, x.2.2)) ∘ fun x => (x.1, x.2, init))
+      = js.map (fun j => (j, init)) := by
+    conv => rhs; rw [← idxFrom_map_snd 0 js]
+    simp [List.map_map]
+
+  rw [h2] at this
+  rw [← this]
+  rfl
+
+def exLiveJoins : List JoinDef := [{ l := 0, r := 1, P := { W := 5, cond := fun _ _ => true } }]
+def exLiveOps : List COp :=
+  [.op (.ev 0 ⟨0, 1, some 0, 0⟩), .op (.ev 1 ⟨0, 1, some 0, 0⟩), .unreg 0, .op (.ev 1 ⟨1, 1, some 0, 0⟩), .reg 0,
+   .op (.ev 0 ⟨1, 2, some 0, 0⟩), .op (.ev 1 ⟨2, 2, some 0, 0⟩)]
+example : multiObsTraceC exLiveJoins exLiveOps = [[[]], [[(0, 0)]], [[]], [[]], [[]], [[]], [[(1, 2)]]] := by decide
+example : multiOkC 0 exLiveJoins exLiveOps (multiObsTraceC exLiveJoins exLiveOps) = true := by decide
+-- the pair delivered twice after registering again (stale routing entry) is rejected
+example : multiOkC 0 exLiveJoins exLiveOps [[[]], [[(0, 0)]], [[]], [[]], [[]], [[]], [[(1, 2), (1, 2)]]] = false := by decide
+-- a join that is away must stay silent
+example : multiOkC 0 exLiveJoins exLiveOps [[[]], [[(0, 0)]], [[]], [[(0, 1)]], [[]], [[]], [[(1, 2)]]] = false := by decide
+
 end C14
